@@ -50,7 +50,8 @@ m = subprocess.run([sys.executable, os.path.join(ROOT, "tools", "mutant.py"), pa
 print(m.stdout[-3000:])
 last = [l for l in m.stdout.splitlines() if l.startswith("{")]
 detected = json.loads(last[-1])["detected_by"] if last else []
-ran.append(f"tools/mutant.py (git -C /repo apply; quick checks {[pid] + extra}; git checkout): detected by {detected}")
+where = ("scratch lane " + os.environ["VERIF_LANE"] + " (frozen copy of /verif + worktree of /repo)") if os.environ.get("VERIF_LANE") else "/repo"
+ran.append(f"tools/mutant.py (git apply in {where}; quick checks {[pid] + extra}; git checkout): detected by {detected}")
 valid = tests_ok and (demo_with is None or (any(c != 0 for c in demo_with) and all(c == 0 for c in demo_without)))
 out = os.path.join(ROOT, "seeded", label)
 if valid:
